@@ -40,13 +40,14 @@ func argBattery() []argCase {
 		kind string
 		v    interface{}
 	}{
-		{"int", "int", int(1)}, {"int8", "int", int8(1)}, {"int64", "int", int64(1)},
-		{"uint", "uint", uint(1)}, {"uint16", "uint", uint16(1)}, {"uint64", "uint", uint64(1)},
+		{"int", "int", int(1)}, {"int8", "int", int8(1)}, {"int16", "int", int16(1)}, {"int32", "int", int32(1)}, {"int64", "int", int64(1)},
+		{"uint", "uint", uint(1)}, {"uint8", "uint", uint8(1)}, {"uint16", "uint", uint16(1)}, {"uint32", "uint", uint32(1)}, {"uint64", "uint", uint64(1)},
 		{"float64", "float", float64(1.5)}, {"float32", "float", float32(0.5)},
 		{"string", "string", "a"},
 		{"time", "time", time.Date(2000, 1, 1, 0, 0, 0, 0, time.UTC)},
 		{"nil", "bad", nil}, {"struct", "bad", struct{ X int }{1}}, {"bytes", "bad", []byte("a")}, {"bool", "bad", true},
-		{"ptr", "bad", new(int)},
+		{"ptr", "bad", new(int)}, {"nilptr", "bad", (*int)(nil)}, {"uintptr", "bad", uintptr(1)}, {"func", "bad", func() {}}, {"chan", "bad", make(chan int)},
+		{"complex", "bad", complex(1, 1)}, {"slice", "bad", []int{1}}, {"map", "bad", map[string]int{}},
 	}
 	ops := []string{"=", "!=", "<", "<=", ">", ">=", "~=", "==", "", "=>", "like"}
 	known := map[string]bool{"=": true, "!=": true, "<": true, "<=": true, ">": true, ">=": true, "~=": true}
@@ -83,7 +84,7 @@ func argBattery() []argCase {
 			}
 		}
 	}
-	for _, f := range []string{"Nope", "k", "P.Nope", "Emb.X", "P.X.Y", "", "K.K", "uuid", "Item.uuid"} {
+	for _, f := range []string{"Nope", "k", "P.Nope", "Emb.X", "P.X.Y", "", "K.K", "uuid", "Item.uuid", "K.", ".K", "P..X", "P.", ".", "Emb.E.", "P.X."} {
 		out = append(out, argCase{Field: f, Op: "=", Val: int(1), Kind: "unknownfield", Tag: "?" + f})
 		out = append(out, argCase{Field: f, Op: "=", Val: "a", Kind: "unknownfield", Tag: "?" + f})
 	}
